@@ -146,7 +146,10 @@ def commands_for(ty, small):
             out += [("ZRANGE", [k, b"1", b"-1"]), ("ZRANGE", [k, b"-2", b"-1", b"WITHSCORES"]), ("ZRANGEBYSCORE", [k, b"(1", b"2", b"WITHSCORES"]), ("ZRANGEBYSCORE", [k, b"1", b"(2"]),
                     ("ZRANGEBYSCORE", [k, b"-inf", b"+inf", b"LIMIT", b"1", b"2"]), ("ZRANGEBYSCORE", [k, b"0", b"5", b"LIMIT", b"0", b"1", b"WITHSCORES"]), ("ZREVRANGE", [k, b"0", b"0", b"WITHSCORES"]),
                     ("ZREVRANGE", [k, b"1", b"2"]), ("ZREVRANGEBYSCORE", [k, b"+inf", b"-inf", b"LIMIT", b"0", b"2"]), ("ZREVRANGEBYSCORE", [k, b"2", b"(1"]), ("ZADD", [k2, b"1", b"m"]),
-                    ("ZRANGE", [k2, b"0", b"-1"]), ("ZADD", [k, b"2", b""]), ("ZADD", [k, b"1", b"a", b"1", b"a"]), ("ZRANGE", [k, b"0", b"-1", b"REV"]), ("ZRANGE", [k, b"0", b"0", b"REV", b"WITHSCORES"])]
+                    ("ZRANGE", [k2, b"0", b"-1"]), ("ZADD", [k, b"2", b""]), ("ZADD", [k, b"1", b"a", b"1", b"a"]), ("ZRANGE", [k, b"0", b"-1", b"REV"]), ("ZRANGE", [k, b"0", b"0", b"REV", b"WITHSCORES"]),
+                    # infinite scores, and increments that move a score to / between the infinities (inf + -inf is not a number)
+                    ("ZADD", [k, b"inf", b"a"]), ("ZADD", [k, b"-inf", b"b"]), ("ZINCRBY", [k, b"-inf", b"a"]), ("ZINCRBY", [k, b"+inf", b"a"]), ("ZINCRBY", [k, b"inf", b"b"]),
+                    ("ZRANGEBYSCORE", [k, b"-inf", b"(+inf", b"WITHSCORES"])]
     return out + gen
 
 def probes(ty):
